@@ -113,7 +113,16 @@ impl AEADBodyCodec {
     }
 
     pub fn encode_packet(&mut self, mut src: BytesMut, dst: &mut BytesMut, session: &mut dyn Session) -> Result<(), aead::Error> {
-        self.encode_chunk(&mut src, dst, session)
+        // a datagram travels in exactly one chunk: refuse one that cannot fit instead of cutting it short
+        const PACKET_LIMIT: usize = 1 << 14;
+        const MAX_PADDING: usize = 64;
+        if src.remaining() + self.auth.cipher.tag_size() + self.chunk.size_bytes() + MAX_PADDING > PACKET_LIMIT {
+            return Err(aead::Error);
+        }
+        let payload_limit = std::mem::replace(&mut self.payload_limit, PACKET_LIMIT);
+        let res = self.encode_chunk(&mut src, dst, session);
+        self.payload_limit = payload_limit;
+        res
     }
 
     pub fn decode_packet(&mut self, src: &mut BytesMut, session: &mut dyn Session) -> Result<Option<BytesMut>, aead::Error> {
